@@ -63,10 +63,16 @@ MUTANTS = {
     "c16-unsafe-cast": ("pulsarbat/core.py", '_temp = z.astype(self._req_dtype[0], casting="safe")', '_temp = z.astype(self._req_dtype[0], casting="unsafe")', ["C16"]),
     "c16-stokes-5": ("pulsarbat/core.py", "    _req_shape = (None, None, 4)", "    _req_shape = (None, None, None)", ["C16"]),
     "c16-rate-nonpos": ("pulsarbat/core.py", "            assert temp.isscalar and temp > 0\n        except Exception:\n            raise ValueError(\n                \"Invalid sample_rate.", "            assert temp.isscalar and temp >= 0\n        except Exception:\n            raise ValueError(\n                \"Invalid sample_rate.", ["C16"]),
+    "c17-like-base": ("pulsarbat/core.py", "(type(self).like(self, a) if b is None else b) for a, b in zip(results, out)", "(Signal.like(self, a) if b is None else b) for a, b in zip(results, out)", ["C17"]),
+    "c17-no-matmul": ("pulsarbat/core.py", 'if method != "__call__" or ufunc == np.matmul:', 'if method != "__call__":', ["C17"]),
+    "c17-no-method": ("pulsarbat/core.py", 'if method != "__call__" or ufunc == np.matmul:', 'if method not in ("__call__", "outer") or ufunc == np.matmul:', ["C17"]),
+    "c17-out-swap": ("pulsarbat/core.py", "(type(self).like(self, a) if b is None else b) for a, b in zip(results, out)", "(type(self).like(self, a) if b is None else type(self).like(self, a)) for a, b in zip(results, out)", ["C17"]),
+    "c17-first-only": ("pulsarbat/core.py", "        return results[0] if len(results) == 1 else results", "        return results[0]", ["C17"]),
 }
 
 # behaviour-preserving edits: no check may fire
 NEUTRAL = {
+    "n-array-nodtype": ("pulsarbat/core.py", "        x = np.asanyarray(self.data, dtype=dtype)\n", "        x = np.asanyarray(self.data)\n", ["C17"]),
     "n-dt-mul": ("pulsarbat/core.py", "self.start_time + s.start / self.sample_rate",
                  "self.start_time + s.start * (1 / self.sample_rate)", ["C01"]),
     "n-guess-1.5N": ("pulsarbat/utils.py", "    f7, guess = 1, 2 * N\n", "    f7, guess = 1, N + N // 2 + 1\n", ["C18"]),
